@@ -108,10 +108,17 @@ Theorem rules_blob_prefix_rejected : forall v post k, wt rules_ty v = true -> po
 Proof. exact (serialized_prefix_rejected_post rules_ty). Qed.
 Print Assumptions rules_blob_prefix_rejected.
 
+(* 7b. the globals blob (types::Struct, recursive; shape generated from the definitions) *)
+Theorem globals_blob_roundtrip : forall v, wt globals_ty v = true ->
+  forall r, run (decode globals_ty) (encode v ++ r) = Ok v (length (encode v)).
+Proof. exact (UniverseProofs.universe_roundtrip globals_ty). Qed.
+Print Assumptions globals_blob_roundtrip.
+
 (* 8. the struct definitions in the source still carry exactly the serde attributes
    the shape of Rules was written for, and every field has a shape *)
-Theorem rules_shape_matches_source : source_attrs_ok = true /\ mentions_unknown rules_ty = false.
-Proof. exact (conj source_attrs_unchanged every_field_has_a_shape). Qed.
+Theorem rules_shape_matches_source :
+  force rules_ty = reviewed_rules_ty /\ source_attrs_ok = true /\ mentions_unknown reviewed_rules_ty = false.
+Proof. exact (conj generated_shape_is_reviewed (conj source_attrs_unchanged every_field_has_a_shape)). Qed.
 Print Assumptions rules_shape_matches_source.
 
 (* non-vacuity: an (empty) Rules value is well-typed, round-trips, and its
